@@ -156,6 +156,8 @@ def run_history(ns, mon, case):
                     viol.append(V("ledger:unreached-leaf-has-gradient", "a leaf never reached since its last reset holds a non-zero gradient",
                                   leaf=li, after=after, events=w.events[-6:]))
                 continue
+            if got is None and exp.get("fresh"):
+                continue                                    # a reset may leave zeros or no gradient at all: both are an empty sum
             if got is None:
                 viol.append(V("ledger:leaf-gradient-missing", "a leaf reached by a backward call has no gradient", leaf=li, after=after, events=w.events[-6:]))
                 continue
@@ -204,6 +206,7 @@ def run_history(ns, mon, case):
             if w.ledger[li] is None:
                 w.ledger[li] = {"v": np.zeros_like(w.leaf_vals[li]), "ok": np.ones(w.leaf_vals[li].shape, dtype=bool), "scale": 1.0}
             L = w.ledger[li]
+            L["fresh"] = False
             L["v"] = L["v"] + np.where(ok, want, 0.0)
             L["ok"] = L["ok"] & ok
             L["scale"] = max(L["scale"], scale, float(np.max(np.abs(L["v"]))) if L["v"].size else 1.0)
@@ -226,12 +229,12 @@ def run_history(ns, mon, case):
                 return
             w.events[-1].append(li)
             w.params[li].zero_()
-            w.ledger[li] = {"v": np.zeros_like(w.leaf_vals[li]), "ok": np.ones(w.leaf_vals[li].shape, dtype=bool), "scale": 1.0}
+            w.ledger[li] = {"v": np.zeros_like(w.leaf_vals[li]), "ok": np.ones(w.leaf_vals[li].shape, dtype=bool), "scale": 1.0, "fresh": True}
         else:
             (w.module.zero_grad if kind == "zero_module" else w.opt.zero_grad)()
             for li, l in enumerate(LEAVES):
                 if l["req"]:
-                    w.ledger[li] = {"v": np.zeros_like(w.leaf_vals[li]), "ok": np.ones(w.leaf_vals[li].shape, dtype=bool), "scale": 1.0}
+                    w.ledger[li] = {"v": np.zeros_like(w.leaf_vals[li]), "ok": np.ones(w.leaf_vals[li].shape, dtype=bool), "scale": 1.0, "fresh": True}
         compare_ledger(kind)
 
     sc = case["scenario"]
